@@ -91,9 +91,10 @@ def compare_program(p, r):
         if ga != gb:
             diff = sorted(set(ga.items()) ^ set(gb.items()))[:4]
             return ('globals', 'student globals differ (%s): %s' % ('after the calls' if which == 'globals_after' else 'after the run', diff))
-    for (name, args), a, b in zip(p.get('calls', []), sb['calls'], pl['calls']):
+    for call, a, b in zip(p.get('calls', []), sb['calls'], pl['calls']):
         if a != b:
-            return ('call', '%s(%s): sandbox %s vs direct call %s' % (name, ', '.join(args), a, b))
+            return ('call', '%s(%s)%s: sandbox %s vs direct call %s' % (call[0], ', '.join(call[1]),
+                                                                      ' with inputs=%r' % (call[2],) if len(call) > 2 and call[2] is not None else '', a, b))
     return None
 
 
@@ -135,6 +136,20 @@ def correspondence(ctx):
         {'src': 'print("no newline", end="")\n', 'inputs': [], 'calls': []},
         {'src': 'x = [i * i for i in range(4)]\ny = {k: v for k, v in zip("ab", x)}\nt = tuple(x)\nprint(x, y, t, sep="|")\n', 'inputs': [], 'calls': []},
     ]
+    fixed += [
+        # annotations are evaluated (undefined names raise, __annotations__ holds objects)
+        {'src': 'print("start")\ndef double(n: int) -> Integer:\n    return 2 * n\nprint("after")\n', 'inputs': [], 'calls': []},
+        {'src': 'def f(a: int, b: "text" = 2) -> float:\n    return a / b\nprint(f.__annotations__)\ncount: int = 3\nprint(__annotations__)\n',
+         'inputs': [], 'calls': [['f', ['6']]]},
+        {'src': 'total: Number = 0\nprint("unreachable")\n', 'inputs': [], 'calls': []},
+        # input left unread by the run; call(..., inputs=...) replaces the queue; the rest stays for the next call
+        {'src': 'first = input("Q>")\ndef ask():\n    return input("Q>") + "|" + input("Q>")\ndef one():\n    return input("Q>")\n',
+         'inputs': ['a', 'b', 'c'], 'calls': [['ask', [], ['x', 'y', 'z']], ['one', []], ['one', []], ['ask', [], []], ['one', [], ['q']]]},
+        {'src': 'def ask():\n    return input("Q>")\nprint(ask())\n', 'inputs': ['1', '2', '3'], 'calls': [['ask', []], ['ask', [], ['9']], ['ask', []]]},
+        # carriage returns are characters like any other
+        {'src': 'print("progress 1", end="\\r")\nprint("progress 2", end="\\r\\n")\ns = "a\\rb"\nprint(s, len(s))\n', 'inputs': [], 'calls': []},
+        {'src': 'def bar(n):\n    print("#" * n, end="\\r")\n    return "x\\r\\ny"\n', 'inputs': [], 'calls': [['bar', ['3']], ['bar', ['1']]]},
+    ]
     helper = {'helper.py': 'x = 5\ndef double(n):\n    return 2 * n\nprint("helper loaded")\n'}
     multi = [
         {'src': 'import helper\nprint(helper.x)\nprint(helper.double(4))\n', 'inputs': [], 'calls': [], 'files': helper},
@@ -151,7 +166,8 @@ def correspondence(ctx):
         src, inputs, funcs = g.program()
         calls = []
         for f, n in funcs[:2]:
-            calls.append([f, [str(rng.choice([0, 1, 5, -2])) for _ in range(n)]])
+            calls.append([f, [str(rng.choice([0, 1, 5, -2])) for _ in range(n)]] +
+                         ([[str(rng.randrange(9)) for _ in range(rng.randrange(0, 3))]] if rng.random() < 0.3 else []))
         progs.append({'src': src, 'inputs': inputs + ['1', '2'], 'calls': calls, 'threaded': rng.random() < 0.25})
     res = vlib.run_impl('c06_impl.py', {'programs': progs}, timeout=2400)
     for p, r in zip(progs, res):
